@@ -3,6 +3,7 @@ import tables as T
 from cfg import cfg_of
 from flow import Taint, Tracker, callee_matches, field_reads, op_local, prep, backward, locals_of_type
 from rules import CallGuard, CallSink, CmpGuard, RetSink, AggSink, BlockSink, FieldOptGuard, compare_sites
+from rules import returned_directly
 from rules import PL
 from props.C04 import call_results
 from props.C10 import _ConstCmp, len_of, reads
@@ -104,7 +105,18 @@ def run(R):
         srt = [b["id"] for b in nk.blocks if b["term"]["k"] == "call" and callee_matches(b["term"], ["*::sort_by", "alloc::slice::<impl [T]>::sort_by"])]
         R.gate("C08.cap.early", nk, BlockSink(lambda b, s=srt: s, "sort of the pending queue"), [[cap]], descr="no scheduling work at all when at the cap")
         # every scheduled entry leaves the queue
-        rem = [c for b in F.item(RF + "::next_keys_to_fetch") if b.kind == "closure" for c in b.calls if c["ncallee"] == HM + "remove"]
+        # (in the `map` closure over the scheduled list, or in a plain loop over it in the function itself)
+        from rules import _captured_seeds
+        par_q = Taint(nk).closure({d for d, r, p in field_reads(nk, "to_be_fetched")})
+        rem = []
+        for b in F.item(RF + "::next_keys_to_fetch"):
+            prep(b)
+            seeds = {d for d, r, p in field_reads(b, "to_be_fetched")}
+            if b.kind == "closure":
+                seeds |= _captured_seeds(nk, b, par_q)     # a closure may capture `&mut self.to_be_fetched` itself
+            recv = Taint(b).closure(seeds)
+            rem += [blk_["term"] for blk_ in b.blocks if blk_["term"]["k"] == "call" and not blk_["cleanup"] and blk_["term"]["ncallee"] == HM + "remove"
+                    and op_local(blk_["term"]["args"][0]) in recv]
         if not rem:
             R.viol("C08.leave.queue", "scheduled-not-removed", "scheduled entries are not removed from to_be_fetched", nk, nk.lines[0])
         R.inst("C08.leave.queue", "K1 must-call", "every scheduled entry is removed from to_be_fetched", len(rem), bool(rem))
@@ -146,17 +158,22 @@ def run(R):
             prep(c)
             for s in compare_sites(c):
                 conv = Taint(c).closure(call_results(["ant_protocol::convert_distance_to_u256"])(c))
-                if op_local(s["a"]) in conv and s["op"] == "Le" and 0 in Taint(c).closure({s["d"]}):
+                if op_local(s["a"]) in conv and s["op"] == "Le" and returned_directly(c, s):
                     ok = True
-                if op_local(s["b"]) in conv and s["op"] == "Ge" and 0 in Taint(c).closure({s["d"]}):
+                if op_local(s["b"]) in conv and s["op"] == "Ge" and returned_directly(c, s):
                     ok = True
         if not ok:
             R.viol("C08.admit.range", "range-filter", "multi-key advertisements are not filtered by convert_distance_to_u256(distance) <= distance_range", ak, ak.lines[0])
         R.inst("C08.admit.range", "K10 polarity", "multi-key entries kept iff distance <= distance_range", len(rc), ok)
         # that filter runs before queuing
         g = cfg_of(ak)
+        from rules import closures_passed
         ret = [b["id"] for b in ak.blocks if b["term"]["k"] == "call" and not b["cleanup"] and callee_matches(b["term"], ["alloc::vec::Vec::retain"])
                and "Vec<(ant_protocol::NetworkAddress, ant_protocol::storage::header::RecordType)>" in ak.locals.get(str(op_local(b["term"]["args"][0])), "")]
+        # … or the same range predicate handed to `partition` / `filter` over the incoming keys
+        ret += [b["id"] for b in ak.blocks if b["term"]["k"] == "call" and not b["cleanup"]
+                and (b["term"].get("ngen") or b["term"].get("ncallee") or "").endswith(("Iterator::partition", "Iterator::filter"))
+                and any(cl in rc for cl in closures_passed(F, ak, b["term"]))]
         fe = [b["id"] for b in ak.blocks if b["term"]["k"] == "call" and not b["cleanup"] and callee_matches(b["term"], ["core::iter::traits::iterator::Iterator::for_each"])]
         okq = bool(ret) and bool(fe)
         if okq:
@@ -347,7 +364,11 @@ def liveness_rules(R):
     if ak0 is not None:
         lens_ = lambda b: Taint(b).closure({blk["term"]["d"][0] for blk in b.blocks if blk["term"]["k"] == "call" and (blk["term"]["ncallee"] or "").endswith("Vec::len")})
         one = _ConstCmp(F, lens_, lambda v: v == 1, ("Eq",), "new_incoming_keys.len() == 1")
-        R.gate("C08.admit.single", ak0, CallSink("*VacantEntry<'a, K, V, A>::insert", "*VacantEntry::insert", "std::collections::hash::map::VacantEntry::insert"), [[one]],
+        # the immediate insertion into the in-flight map: through a VacantEntry, or `on_going_fetches.insert(..)` (cut by !contains_key: C08.dup)
+        _vac = CallSink("*VacantEntry<'a, K, V, A>::insert", "*VacantEntry::insert", "std::collections::hash::map::VacantEntry::insert")
+        _ins = on_field([HM + "insert"], "on_going_fetches")
+        from rules import BlockSink as _BSink
+        R.gate("C08.admit.single", ak0, _BSink(lambda b: sorted(set(_vac.blocks(b)) | set(_ins(b))), "insertion into on_going_fetches"), [[one]],
                descr="add_keys starts a fetch directly (without the range filter) only for a single new key")
     # (d)
     ak = R.body("C08.admit.prune", RFP + "add_keys")
